@@ -1,6 +1,6 @@
 (* C05 - property theorems only.  Each is closed by `exact` of a lemma of C05_Proofs.v / C05_HalfClose.v / C05_Delay.v. *)
-From Coq Require Import List NArith Bool.
-From Dae Require Import C05_Spec C05_Model C05_Proofs C05_HCDefs C05_HalfClose C05_Delay C05_PoolModel C05_PoolProofs C05_BufioModel C05_BufioProofs.
+From Coq Require Import List NArith ZArith Bool.
+From Dae Require Import C05_Spec C05_Model C05_Proofs C05_HCDefs C05_HalfClose C05_Delay C05_PoolModel C05_PoolProofs C05_BufioModel C05_BufioProofs C05_SpliceModel C05_SpliceProofs.
 From Dae.gen Require Import C05_Extracted.
 Import ListNotations.
 Open Scope N_scope.
@@ -172,6 +172,57 @@ Example C05_nonvacuous_bufio_reader :
   fst (fst (gather 65537 c05_relay_buf true w_reader [1;2;3])) = [1;2;3;101;108;108;111; 1;2;3]
   /\ fst (fst (gather c05_bufio_size c05_relay_buf true w_reader [1;2;3])) = [0;5;104;101;108;108;111; 1;2;3].
 Proof. exact large_reader_witness. Qed.
+
+(* The splice fast path and its pipe pool (C05_SpliceModel; where pipe.data is assigned is extracted from
+   relaySpliceCopyExact, so code_flags IS the code).  Invariant, at EVERY exit of the loop (ctx seen at the loop
+   top, end of stream, failing fill, failing drain, zero drain) and for every kernel behaviour (any fill sizes,
+   any partial drains): the recorded count equals the bytes really in the pipe, and bytes written ++ bytes in the
+   pipe ++ bytes still in the socket = the stream. *)
+Theorem C05_splice_recorded_is_actual :
+  forall its src p inPipe out x src' p' out' src0,
+    pp_data p = Z.of_N (len (pp_bytes p)) -> inPipe = len (pp_bytes p) ->
+    out ++ pp_bytes p ++ src = src0 ->
+    splice_loop code_flags its src p inPipe out = (x, src', p', out') ->
+    pp_data p' = Z.of_N (len (pp_bytes p')) /\ out' ++ pp_bytes p' ++ src' = src0.
+Proof.
+  intros its src p inPipe out x src' p' out' src0.
+  exact (splice_loop_inv code_flags its src p inPipe out x src' p' out' src0
+           (proj1 code_updates_every_splice) (proj2 code_updates_every_splice)).
+Qed.
+Print Assumptions C05_splice_recorded_is_actual.
+
+(* Hence, with putRelaySplicePipe's rule (data != 0 -> close), for every history of connection directions over
+   the pool - any number of them, any oracle per iteration, cancellation at any loop top, every exit, pool reuse
+   in any order - every pipe the pool hands out is empty, and what each direction wrote is a prefix of ITS OWN
+   stream: the connections stay independent over the splice path too. *)
+Theorem C05_splice_pool_clean :
+  forall conns pl outs pl',
+    pool_clean pl -> run_history code_flags conns pl = (outs, pl') ->
+    pool_clean pl' /\ Forall2 (fun c out => prefix_of out (snd c)) conns outs.
+Proof. exact splice_pool_clean_proof. Qed.
+Print Assumptions C05_splice_pool_clean.
+
+(* each pool operation on its own keeps the pool clean (so any interleaving of gets and puts does) *)
+Theorem C05_splice_pool_ops :
+  (forall pl, pool_clean pl -> pipe_clean (fst (pool_get pl)) /\ pool_clean (snd (pool_get pl))) /\
+  (forall pl p, pool_clean pl -> pp_data p = Z.of_N (len (pp_bytes p)) -> pool_clean (pool_put pl p)).
+Proof. split; [exact pool_get_clean|exact pool_put_clean]. Qed.
+Print Assumptions C05_splice_pool_ops.
+
+(* "record the stranded bytes only on the two failing drain exits" is refuted: ctx seen at the loop top after
+   a partial drain returns a non-empty pipe to the pool *)
+Theorem C05_splice_record_on_failing_exits_refuted :
+  exists conns pl, pool_clean pl /\
+    ~ (pool_clean (snd (run_history seed_flags conns pl)) /\
+       Forall2 (fun c out => prefix_of out (snd c)) conns (fst (run_history seed_flags conns pl))).
+Proof. exact splice_seed_refuted_proof. Qed.
+Print Assumptions C05_splice_record_on_failing_exits_refuted.
+
+Example C05_nonvacuous_splice :
+  fst (run_history seed_flags [w_conn1; w_conn2] []) = [[1]; [2;3]]
+  /\ fst (run_history code_flags [w_conn1; w_conn2] []) = [[1]; [9;8]]
+  /\ map pp_bytes (snd (run_history code_flags [w_conn1; w_conn2] [])) = [[]].
+Proof. exact splice_witness. Qed.
 
 (* Non-vacuity / regression examples: the inputs that refuted the full statements before the repairs. *)
 Example C05_nonvacuous_port53_fallback :
